@@ -91,7 +91,7 @@ def main():
             continue
         argtxt = chx.call_args(v.detail) or ""
         try:
-            args = [int(x) for x in re.findall(r"-?\d+", argtxt)]
+            args = [int(x) for x in re.findall(r"(?:[A-Za-z_]\w*\s*=\s*)?(-?\d+)", argtxt)]
         except Exception:
             args = []
         if v.func == "cli" and len(args) == len(NAMES) - 1:
